@@ -23,6 +23,17 @@ def _rand_bytes(rng, n):
 
 
 def cases(rng, tier):
+    # valid Base58 / Base58Check strings with one character replaced by a non-ASCII look-alike
+    look_ = common.unicode_lookalikes()
+    for _ in range(30 if tier == "quick" else 600):
+        body = bytes(rng.getrandbits(8) for _ in range(rng.choice([1, 5, 21, 34])))
+        s58 = b58check_enc(body)
+        jj = rng.randrange(len(s58))
+        subs = look_.get(s58[jj], []) + look_.get(s58[jj].swapcase(), [])
+        if subs:
+            bad = s58[:jj] + rng.choice(subs) + s58[jj + 1:]
+            yield "b58d " + sx(bad), "unicode-lookalike"
+            yield "b58cd " + sx(bad), "unicode-lookalike-check"
     # numbers whose base-58 digit string has an INTERIOR run of the zero digit, at every alignment and length
     # (block-wise or padded encoders lose or invent such digits), and runs of the top digit
     for start in list(range(1, 32)) + [40, 50, 60, 100]:
